@@ -115,7 +115,7 @@ fn payload_kind(rng: &mut Rng, l: usize, kind: usize) -> Vec<u8> {
 pub fn c03(p: &Params) -> Outcome {
     let seed = p.seed;
     let thorough = p.thorough;
-    let n_random = p.size(1_000_000, 200_000_000);
+    let n_random = p.size(10_000_000, 1_000_000_000);
     let workers = p.workers;
     // part 1: every L in 0..=1023 (work queue), near-miss families per frame
     let mut total = par::run_queue(workers, 1024, move |l, ctx| {
@@ -256,6 +256,8 @@ pub fn c03(p: &Params) -> Outcome {
 fn c04_observe(ctx: &mut Ctx, damaged: &[u8], fault: &'static str, detail: impl Fn() -> Value) {
     ctx.eval();
     ctx.count(fault);
+    // every damaged frame is a case of its own: distinct by content hash
+    ctx.nontrivial(hash_bytes(damaged));
     let r = guard(|| {
         let a = match MessageFrame::new(damaged) {
             Ok(_) => 1u8,
@@ -324,7 +326,6 @@ fn c04_frame(ctx: &mut Ctx, rng: &mut Rng, f: &[u8], thorough: bool, label: &str
     let pos = allowed_positions(f.len());
     let nbits = f.len() * 8;
     let mut g = f.to_vec();
-    ctx.nontrivial(hash_bytes(f));
     ctx.count_dyn(format!("frames:{}", label));
     // all single bits
     for &a in &pos {
@@ -495,7 +496,7 @@ pub fn c04(p: &Params) -> Outcome {
     }
     Outcome {
         ctx: total,
-        rule: "fault injection on valid frames (synthetic payload lengths and library-generated frames of message types): single bits, bit pairs, odd-weight patterns, bursts 2..=24; evaluations = damaged frames presented; non-trivial/distinct = distinct base frames (by hash)".into(),
+        rule: "fault injection on valid frames (synthetic payload lengths and library-generated frames of message types): single bits, bit pairs, odd-weight patterns, bursts 2..=24; evaluations = damaged frames presented; every damaged frame is non-trivial; distinct by hash of the damaged frame".into(),
         exhaustive: false,
         extra: json!({}),
     }
@@ -637,7 +638,7 @@ pub fn c05_check(ctx: &mut Ctx, buf: &[u8], tags: u32) {
 
 pub fn c05(p: &Params) -> Outcome {
     let seed = p.seed;
-    let n = p.size(200_000, 50_000_000);
+    let n = p.size(3_000_000, 100_000_000);
     let per = n / p.workers as u64;
     let mut total = par::run(p.workers, move |w, _n, ctx| {
         let mut rng = Rng::derive(seed, "C05", w as u64);
@@ -884,7 +885,7 @@ fn c06_stream(ctx: &mut Ctx, rng: &mut Rng, stream: &[u8], n_random: usize, exha
 
 pub fn c06(p: &Params) -> Outcome {
     let seed = p.seed;
-    let n_streams = p.size(2_000, 100_000);
+    let n_streams = p.size(30_000, 1_000_000);
     let n_random = if p.thorough { 150 } else { 12 };
     let thorough = p.thorough;
     let per = (n_streams / p.workers as u64).max(1);
@@ -1060,12 +1061,12 @@ pub fn c13(p: &Params) -> Outcome {
     let seed = p.seed;
     let thorough = p.thorough;
     let nums: Vec<u16> = gen::supported_numbers().to_vec();
-    let n_typed = nums.len() * if thorough { 200 } else { 4 };
+    let n_typed = nums.len() * if thorough { 20000 } else { 1000 };
     let mut total = par::run_queue(p.workers, 1024 + n_typed, move |i, ctx| {
         let mut rng = Rng::derive(seed, "C13", i as u64);
         if i < 1024 {
             let l = i;
-            let reps = if thorough { 40 } else { 3 };
+            let reps = if thorough { 1000 } else { 40 };
             for k in 0..reps {
                 let mut payload = payload_kind(&mut rng, l, k % 3);
                 if l >= 2 && k % 2 == 1 {
